@@ -166,6 +166,10 @@ def check(ctx):
                 n += 1
                 owner = f["owner_fn"]
                 ok = owner in ALLOWED or owner.endswith(ALLOWED_SUFFIX)
+                if not ok and len(t[1]["args"]) > 1:
+                    # freeing the slot whose id this very function just dequeued from the container's ring (consume with its helpers inlined, a drain): it owns it
+                    fb_ = Body(f); fd_ = D.Dag(fb_)
+                    ok = any(isinstance(x, tuple) and x[:1] == ("call",) and x[1].split("::")[-1] in ("consume_leaking", "consume_movable") for x in _walk_e(fd_.expr(t[1]["args"][1])))
                 ctx.ob("R13.3", f"{owner}|calls|{t[1]['fname']}", ok, f"{f['file']}:{t[1]['line']}", f"`{owner.split('::')[-1]}` frees a pool slot; only owners of a slot may (handle drops, zero-copy release/unleak, reservation cancel)")
     # second layer: the zero-copy containers' own slot-freeing functions (unleak_slot_* = give an allocated slot back, release_leaked_* = free a consumed one)
     # run the payload's destructor on whatever the slot holds.  Their reviewed callers: the container's own `consume` (published => written) and the channels'
@@ -180,6 +184,10 @@ def check(ctx):
                 owner = f["owner_fn"]
                 if owner.endswith(ALLOWED_SUFFIX[:4]) : continue       # the container functions delegating to each other (by ref -> by id)
                 ok = owner.endswith(OK2)
+                if not ok and t[1]["fname"].startswith("release_leaked") and len(t[1]["args"]) > 1:
+                    # releasing a slot this very function just dequeued (a drain / clear built on consume_leaking + release_leaked_*): dequeued => published => written
+                    fb_ = Body(f); fd_ = D.Dag(fb_)
+                    ok = any(isinstance(x, tuple) and x[:1] == ("call",) and x[1].split("::")[-1] in ("consume_leaking", "consume_movable") for x in _walk_e(fd_.expr(t[1]["args"][1])))
                 ctx.ob("R13.3", f"{owner}|calls|{t[1]['fname']}", ok, f"{f['file']}:{t[1]['line']}",
                        f"`{owner.split('::')[-1]}` frees a zero-copy slot through `{t[1]['fname']}` (runs the payload's destructor on the slot's bytes and recycles it); reviewed callers: the container's consume and try_cancel_slot_reserve")
     # ... and each of those container functions really gives the slot back: exactly one allocator dealloc of its own argument on every path
